@@ -5,14 +5,18 @@
     The application tries its services in registration order; the first service whose
     pattern (resource) or prefix (scope) matches takes the request.  A scope that took
     the request answers 404 itself when none of its resources matches (no fall-through
-    to later services); a resource without a route for the method answers 405.
+    to later services); a resource without a route for the method answers 405 (a resource
+    registered through the attribute macro is instead skipped when the method differs).
     The router sees the partially percent-decoded path ([requote]). *)
 From RN Require Export Auth.StrX.
 Local Open Scope N_scope.
 
 Inductive pat := PExact (s : string) | PPrefix (s : string).
 Inductive resource := Res (p : pat) (routes : list (string * string)).     (* (METHOD, handler) *)
-Inductive service := SRes (r : resource) | SScope (prefix : string) (rs : list resource).
+(** [SGuarded]: a handler registered through the #[actix_web::get("..")] attribute macro: the
+    method is a guard of the resource itself, so a request with another method is not taken
+    by this service at all (the next services are tried) *)
+Inductive service := SRes (r : resource) | SGuarded (r : resource) | SScope (prefix : string) (rs : list resource).
 
 Definition pat_match (p : pat) (path : str) : bool :=
   match p with
@@ -54,6 +58,13 @@ Fixpoint dispatch_decoded (ss : list service) (path method : str) : dispatch :=
   | [] => NotFound
   | SRes (Res p routes) :: t =>
       if pat_match p path then find_route routes method else dispatch_decoded t path method
+  | SGuarded (Res p routes) :: t =>
+      if pat_match p path then
+        match find_route routes method with
+        | Handler h => Handler h
+        | _ => dispatch_decoded t path method
+        end
+      else dispatch_decoded t path method
   | SScope prefix rs :: t =>
       match strip_scope prefix path with
       | Some rest => find_res rs rest method
@@ -80,6 +91,7 @@ Definition flatten_res (prefix : string) (r : resource) : list route :=
 Definition flatten_service (s : service) : list route :=
   match s with
   | SRes r => flatten_res EmptyString r
+  | SGuarded r => flatten_res EmptyString r
   | SScope prefix rs => List.concat (map (flatten_res prefix) rs)
   end.
 
